@@ -176,6 +176,53 @@ func runC08(c *fw.Ctx) {
 		}
 	})
 
+	// (i-b) one file included from two (or three) places: content that may legitimately repeat
+	twice := []struct {
+		label   string
+		content string
+		host    func(inc func(depthIndent string) string) string
+	}{
+		{"method-with-path", "GET\n  Path\n    {\n      \"id\": 1\n    }\n  200 any\n",
+			func(inc func(string) string) string {
+				return "JSIGHT 0.3\nURL /a/{id}\n" + inc("  ") + "URL /b/{id}\n" + inc("  ") + "URL /c/{id}\n  Path\n    {\n      \"id\": 2\n    }\n  POST\n    200 any\n"
+			}},
+		{"method-with-path-parens", "GET\n(\n  Path\n    {\n      \"id\": 1\n    }\n  200 any\n)\n",
+			func(inc func(string) string) string {
+				return "JSIGHT 0.3\nURL /a/{id}\n(\n" + inc("  ") + ")\nURL /b/{id}\n(\n" + inc("  ") + ")\n"
+			}},
+		{"responses", "404 any\n500\n  {\n    \"e\": \"m\"\n  }\n",
+			func(inc func(string) string) string {
+				return "JSIGHT 0.3\nGET /one\n  200 any\n" + inc("  ") + "POST /two\n" + inc("  ") + "URL /three\n  PUT\n" + inc("    ")
+			}},
+		{"request", "Request\n  Headers\n    {\n      \"H\": \"v\"\n    }\n  Body any\n",
+			func(inc func(string) string) string {
+				return "JSIGHT 0.3\nPOST /one\n" + inc("  ") + "  200 any\nPUT /two\n" + inc("  ") + "  200 any\n"
+			}},
+		{"query-and-description", "Description\n  shared text\nQuery \"q=1\"\n  {\n    \"q\": 1\n  }\n",
+			func(inc func(string) string) string {
+				return "JSIGHT 0.3\nGET /one\n" + inc("  ") + "  200 any\nGET /two\n" + inc("  ") + "  200 any\n"
+			}},
+		{"headers-under-responses", "Headers\n  {\n    \"H\": \"v\"\n  }\nBody any\n",
+			func(inc func(string) string) string {
+				return "JSIGHT 0.3\nGET /one\n  200\n" + inc("    ") + "  404\n" + inc("    ") + "  Request\n" + inc("    ")
+			}},
+		{"rpc-params", "Params\n  {\n    \"p\": 1\n  }\nResult\n  {\n    \"r\": 2\n  }\n",
+			func(inc func(string) string) string {
+				return "JSIGHT 0.3\nURL /rpc\n  Protocol json-rpc-2.0\n  Method one\n" + inc("    ") + "  Method two\n" + inc("    ")
+			}},
+	}
+	for _, tw := range twice {
+		inline := func(ind string) string { return indentBlock(tw.content, ind) }
+		for _, sub := range []bool{false, true} {
+			name := "twice.jst"
+			if sub {
+				name = "sub/twice.jst"
+			}
+			include := func(ind string) string { return ind + "INCLUDE " + name + "\n" }
+			compareSplit("twice "+tw.label+fmt.Sprintf(" sub=%v", sub)+" same-file-many-places", tw.host(inline), drv.Project{Root: "root.jst", Files: map[string]string{"root.jst": tw.host(include), name: tw.content}})
+		}
+	}
+
 	// (ii) file names
 	maxLen := 6
 	if !c.Quick() {
